@@ -6,8 +6,8 @@
     alpha and the two binary heaps.  [ext_ok X] asks only that the order is a total preorder and
     that the heaps keep their contents — nothing about [<], alpha or which of two equal
     distances a heap pops first. *)
-From GV Require Export Vec.Hnsw Vec.Brute Vec.Kernel Vec.Quant Vec.Inst.
-From GV Require Import Vec.Proofs Vec.ProofsKernel Vec.ProofsQuant.
+From GV Require Export Vec.Hnsw Vec.Brute Vec.Kernel Vec.Quant Vec.Inst Vec.Wrap Vec.SmallSort.
+From GV Require Import Vec.Proofs Vec.ProofsKernel Vec.ProofsQuant Vec.ProofsWrap Vec.ProofsJoin Vec.ProofsHeap.
 From Coq Require Import ZArith List Bool Permutation Sorted QArith.
 Import ListNotations.
 Open Scope Z_scope.
@@ -72,9 +72,11 @@ Theorem kernel_lanes : forall (R : Type) (zero : R) (add : R -> R -> R) (A : Typ
 Proof. exact kernel_lanes_l. Qed.
 Print Assumptions kernel_lanes.
 
-(** completeness relative to layer-0 reachability from the node the layer-0 search starts at.
-    Reachability of every live node after arbitrary histories is NOT a theorem: see
-    [search_complete_refuted] (finding C18-K1). *)
+(** completeness relative to layer-0 reachability from the node the layer-0 search starts at — the
+    property promises k results "whenever the index holds at least k REACHABLE vectors".
+    Reachability of every live node after arbitrary histories is NOT a theorem (remove() purges
+    links without repairing the graph): [search_complete_refuted] — an observation reported by
+    every run, not a failure of the property as stated. *)
 Theorem search_complete : forall V D (X : ext V D) (s : state V) q k ef a U, ext_ok X ->
   xstart X s q = Some a -> nodes s <> [] ->
   NoDup U -> (forall x, In x U -> reach0 (nodes s) a x) ->
@@ -112,6 +114,108 @@ Theorem scalar_quant_clamp : forall mn range v, 0 < range ->
 Proof. exact scalar_quant_clamp_l. Qed.
 Print Assumptions scalar_quant_clamp.
 
+
+(** the instance that RUNS in the check (std's BinaryHeap transcribed from the Rust source, exact
+    integer distances) satisfies [ext_ok]: the theorems above apply to it without premise *)
+Theorem std_heap_keeps_contents : forall (E : Type) (ole : E -> E -> bool), heap_ok (bpush ole) (bpop ole).
+Proof. exact std_heap_ok. Qed.
+Print Assumptions std_heap_keeps_contents.
+
+Theorem zext_ok : forall mt, ext_ok (zext mt).
+Proof. exact zext_ok_l. Qed.
+Print Assumptions zext_ok.
+
+(** the SIMD-lane evaluation (8, 4 or any number of lanes + scalar remainder) of every metric *)
+Theorem zdist_lanes : forall W mt a b, zdist_l W mt a b = zdist mt a b.
+Proof. exact zdist_lanes_l. Qed.
+Print Assumptions zdist_lanes.
+
+Theorem cos_parts_lanes : forall W a b, cos_parts_l W a b = cos_parts a b.
+Proof. exact cos_parts_lanes_l. Qed.
+Print Assumptions cos_parts_lanes.
+
+(** ---- exact search with the comparator of mod.rs: partial_cmp(..).unwrap_or(Equal) ----
+    distances-or-NaN ([None]); at most 20 vectors (std's insertion sort, transcribed).
+    HEAD violates the property when a distance is NaN (finding C18-K2). *)
+Theorem brute_nan_refuted : exists (xs : list (Z * option Z)) k i d j e,
+  In (i, Some d) (brute_small lt_pc xs k) /\ In (j, Some e) xs /\
+  ~ In j (map fst (brute_small lt_pc xs k)) /\ e < d.
+Proof. exact brute_nan_refuted_l. Qed.
+Print Assumptions brute_nan_refuted.
+
+Theorem brute_nan_free : forall xs k, has_nan xs = false -> brute_small lt_pc xs k = brute_small lt_of xs k.
+Proof. exact brute_nan_free_l. Qed.
+Print Assumptions brute_nan_free.
+
+Theorem brute_small_exact : forall (xs : list (Z * option Z)) k,
+  let r := brute_small lt_of xs k in
+  zlen r = Z.min (Z.max 0 k) (zlen xs) /\
+  StronglySorted (fun a b => leb_of (snd a) (snd b) = true) r /\
+  (exists rest, Permutation (r ++ rest) xs /\ forall a b, In a r -> In b rest -> leb_of (snd a) (snd b) = true) /\
+  (forall P : Z * option Z -> bool,
+     (forall a b, P a = true -> P b = true -> leb_of (snd a) (snd b) = true) ->
+     exists rest', filter P xs = filter P r ++ rest').
+Proof. exact brute_small_exact_l. Qed.
+Print Assumptions brute_small_exact.
+
+(** ---- QuantizedHnswIndex::search_with_ef (trained quantiser) ----
+    HEAD panics when k * rescore_factor overflows a usize (finding C18-K3). *)
+Theorem qsearch_overflow_refuted : exists (k : Z) (mults : list Z), 0 <= k <= usize_max /\
+  forall V D (X : ext V D) d2 s q ef pre, qsearch X d2 s q k ef mults true pre = QPanic.
+Proof. exact qsearch_overflow_refuted_l. Qed.
+Print Assumptions qsearch_overflow_refuted.
+
+Theorem qsearch_panic_iff : forall V D (X : ext V D) d2 (s : state V) q k ef mults resc pre,
+  qsearch X d2 s q k ef mults resc pre = QPanic <-> resc = true /\ num_candidates k mults = None.
+Proof. exact (fun V D X d2 => qsearch_panic_iff_l X d2). Qed.
+Print Assumptions qsearch_panic_iff.
+
+Theorem qsearch_sound : forall V D (X : ext V D) d2, ext_ok X -> forall (s : state V) q k ef mults pre r,
+  pre_ok pre -> qsearch X d2 s q k ef mults true pre = QOk r ->
+  zlen r <= Z.max 0 k /\ NoDup (map fst r) /\
+  StronglySorted (fun a b => x_leb X (snd a) (snd b) = true) r /\
+  forall i d, In (i, d) r -> exists n, lookup (nodes s) i = Some n /\ d = d2 q (fst n).
+Proof. exact (fun V D X d2 HX => qsearch_sound_l X d2 HX). Qed.
+Print Assumptions qsearch_sound.
+
+Theorem qsearch_count : forall V D (X : ext V D) d2, ext_ok X -> forall (s : state V) q k ef mults nc,
+  links_closed s -> num_candidates k mults = Some nc ->
+  exists r, qsearch X d2 s q k ef mults true pre_none = QOk r /\
+            zlen r = Z.min (Z.max 0 k) (zlen (xsearch X s q nc ef)).
+Proof. exact (fun V D X d2 HX => qsearch_count_l X d2 HX). Qed.
+Print Assumptions qsearch_count.
+
+Theorem qsearch_plain : forall V D (X : ext V D) d2, ext_ok X -> forall (s : state V) q k ef mults,
+  qsearch X d2 s q k ef mults false pre_none = QOk (xsearch X s q k ef).
+Proof. exact (fun V D X d2 HX => qsearch_plain_l X d2 HX). Qed.
+Print Assumptions qsearch_plain.
+
+Theorem pre_stages_ok : forall D (leb : D -> D -> bool) key k,
+  pre_ok (D := D) pre_none /\ pre_ok (pre_rank leb key) /\ pre_ok (pre_rank_trunc leb key k).
+Proof. intros; split; [apply pre_none_ok|split; [apply pre_rank_ok|apply pre_rank_trunc_ok]]. Qed.
+Print Assumptions pre_stages_ok.
+
+(** ---- VectorScanOperator / VectorJoinOperator output ---- *)
+Theorem scan_chunks_ok : forall (A : Type) (cap : nat) (l : list A), (1 <= cap)%nat ->
+  concat (scan_chunks cap l) = l /\ Forall (fun ch => (1 <= length ch <= cap)%nat) (scan_chunks cap l).
+Proof. exact scan_chunks_ok_l. Qed.
+Print Assumptions scan_chunks_ok.
+
+(** HEAD: a chunk that fills up exactly at the end of a left row's matches makes next() search
+    the same row again, for ever (finding C18-K4) *)
+Theorem join_refuted : exists (cap : nat) (rows : list (Z * list Z)),
+  (1 <= cap)%nat /\ k_join_boundary cap rows = true /\
+  forall fuel, exists ch, jrun fuel cap (jinit rows) = (repeat ch fuel, false).
+Proof. exact join_refuted_l. Qed.
+Print Assumptions join_refuted.
+
+Theorem join_is_row_by_row : forall (L R : Type) (cap : nat) (rows : list (L * list R)),
+  (1 <= cap)%nat -> k_join_boundary cap rows = false ->
+  exists fuel chs, jrun fuel cap (jinit rows) = (chs, true) /\ concat chs = join_spec rows /\
+                   Forall (fun ch => (1 <= length ch <= cap)%nat) chs.
+Proof. exact join_is_row_by_row_l. Qed.
+Print Assumptions join_is_row_by_row.
+
 (** non-vacuity: an instance satisfying [ext_ok]; a history whose state satisfies the hypotheses *)
 Example nv_ext_ok : ext_ok (zext_list Euclidean).
 Proof. exact (zext_list_ok Euclidean). Qed.
@@ -134,4 +238,13 @@ Proof.
   intros x [<-|[<-|[<-|[]]]]; assumption.
 Qed.
 Example nv_quant : sq_code 10 (255 * 4) 523 = 128 /\ sq_deq255 (255 * 4) 128 = 255 * 512.
+Proof. vm_compute. split; reflexivity. Qed.
+Example nv_join : k_join_boundary 3 [(0, [10; 11]); (1, [20; 21])] = false /\
+  jrun 3 3 (jinit [(0, [10; 11]); (1, [20; 21])]) = ([[(0, 10); (0, 11); (1, 20)]; [(1, 21)]], true).
+Proof. vm_compute. split; reflexivity. Qed.
+Example nv_qsearch : exists r, qsearch (zext Euclidean) (zdist Euclidean)
+    (xrun (zext Euclidean) (mk_config 16 32 128) [OpInsert 1 [0] 0; OpInsert 2 [1] 0; OpInsert 3 [2] 0]) [0] 2 50 [2] true pre_none = QOk r
+    /\ map fst r = [1; 2].
+Proof. eexists. vm_compute. split; reflexivity. Qed.
+Example nv_nan_free : has_nan [(1, Some 3); (2, Some 1)] = false /\ brute_small lt_pc [(1, Some 3); (2, Some 1)] 1 = [(2, Some 1)].
 Proof. vm_compute. split; reflexivity. Qed.
